@@ -92,6 +92,8 @@ def span_contract(q, rs):
         assert _norm(cut).strip() == _norm(r.text).strip(), ('text', q, r.text, r.start, r.end, cut)
 
 
+# recorded finding F44: an entity with a leading AND a trailing modifier (one match_is_after flag serves all modifiers in BaseMergedParser.parse)
+F44_INPUTS = ('before 1/1/2016 and after', 'before may 5 or later and', 'after 3pm or later')
 F3A = []        # (span, span) pairs the add_to monitor attributes to the recorded finding F3a during the current query
 
 
@@ -199,7 +201,10 @@ def disjoint(q, rs):
         for j in range(i + 1, len(sp)):
             a, b = sp[i], sp[j]
             if a[0] <= b[1] and b[0] <= a[1]:
-                if ((a[0], a[1]), (b[0], b[1])) in F3A or ((b[0], b[1]), (a[0], a[1])) in F3A:
+                # a recorded F3a pair may have been widened afterwards by a modifier (add_mod): the final spans contain the recorded ones
+                def _within(p_, s_):
+                    return s_[0] <= p_[0] and p_[1] <= s_[1]
+                if any((_within(p1, a) and _within(p2, b)) or (_within(p1, b) and _within(p2, a)) for (p1, p2) in F3A):
                     continue
                 if ((a[0], a[1]), (b[0], b[1])) in F36 or ((b[0], b[1]), (a[0], a[1])) in F36:
                     continue
@@ -257,6 +262,8 @@ def h_compose(a: int, b: int, c: int, d: int):
         rs = _recognize(KIND, q)
     if F37:
         return                       # region of known finding F37 (the modifier widening of the Chinese merged extractor touched a result)
+    if KIND == 'datetime' and CULTURE == 'en-us' and any(w in q for w in F44_INPUTS):
+        return                       # recorded finding F44, identified by its inputs
     span_contract(q, rs)
     disjoint(q, rs)
 
